@@ -299,6 +299,64 @@ def faithful_seq_full (α : Type) [CommRing α] [DecidableEq α] : Prop :=
   ∀ (T T' : Ten α) (I : List PyIndex), T.WF → T.getitem I = .ok (.t T') →
     ∃ n, normalizeIndices I T.shape = .ok n ∧ (T.asarray.take n.idx).squeeze n.singl = .ok T'.asarray
 
+/-! ## find_truncation_rank: the error budget (loop invariant) -/
+section Trunc
+variable {α : Type} [CommRing α] [LinearOrder α]
+
+/-- `findTruncLoop` (the `while` loop of `find_truncation_rank`) instrumented with the list of
+squared norms of the slices it removes -/
+def truncTrace (get : List Nat → α) (tolsq : α) : Nat → List Nat → α → List Nat × List α
+  | 0, s, _ => (s, [])
+  | fuel + 1, s, total =>
+      if prod s = 0 then (s, []) else
+      let errs := (List.range s.length).map (lastSliceSq get s)
+      let ax := argmin errs
+      let total' := total + errs.getD ax 0
+      if tolsq < total' then (s, [])
+      else
+        let r := truncTrace get tolsq fuel (s.set ax (s.getD ax 0 - 1)) total'
+        (r.1, errs.getD ax 0 :: r.2)
+
+/-- the instrumented loop returns the same shape as the model of the code -/
+theorem truncTrace_shape (get : List Nat → α) (tolsq : α) : ∀ (fuel : Nat) (s : List Nat) (total : α),
+    (truncTrace get tolsq fuel s total).1 = findTruncLoop get tolsq fuel s total
+  | 0, s, total => rfl
+  | fuel + 1, s, total => by
+    simp only [truncTrace, findTruncLoop]
+    split
+    · rfl
+    · split
+      · rfl
+      · exact truncTrace_shape get tolsq fuel _ _
+
+/-- **truncation budget (loop invariant)**: whatever the tensor, the tolerance and the number of
+iterations, the squared norms of all slices removed by `find_truncation_rank` (plus the initial
+`total_err_squ`) sum to at most `tol²`.  Partial: that these slices are disjoint, so that the sum
+*is* `‖X - X[:r]‖²`, is not proved in Lean (checked by the harness oracle on every instance). -/
+theorem truncation_budget_partial (get : List Nat → α) (tolsq : α) : ∀ (fuel : Nat) (s : List Nat) (total : α),
+    total ≤ tolsq → total + sumL (truncTrace get tolsq fuel s total).2 ≤ tolsq
+  | 0, s, total, h => by simpa [truncTrace] using h
+  | fuel + 1, s, total, h => by
+    simp only [truncTrace]
+    split
+    · simpa using h
+    · split
+      · simpa using h
+      · rename_i hlt
+        have h' := truncation_budget_partial get tolsq fuel
+          (s.set (argmin ((List.range s.length).map (lastSliceSq get s)))
+            (s.getD (argmin ((List.range s.length).map (lastSliceSq get s))) 0 - 1))
+          (total + ((List.range s.length).map (lastSliceSq get s)).getD
+            (argmin ((List.range s.length).map (lastSliceSq get s))) 0) (not_lt.1 hlt)
+        simp only [sumL_cons]
+        rw [← add_assoc]
+        exact h'
+
+/-- non-vacuity: on the 1-D core `[3, 1, 1]` with `tol² = 5/2` two slices of squared norm 1 are removed -/
+example : truncTrace (fun I => ([3, 1, 1] : List Rat).getD (I.getD 0 0) 0) (5/2) 10 [3] 0 = ([1], [1, 1]) := by
+  decide +kernel
+end Trunc
+
 /-! ## adaptive cross approximation -/
 section Field
 variable {α : Type} [Field α]
